@@ -20,3 +20,13 @@ def c03_sw_negative_against_wide(case, reason):
     holding a negative value on one side while the other side counts as 64 bits wide (spec flag
     StmtsSwNeg): the register is compared without sign extension"""
     return case.get("verdict") == "wrong" and case.get("cmp_sw_negative") is True
+
+
+def c22_three_nonrunning_with_reordering(case, reason):
+    """F27: with three frames of a group in flight and frames returning OUT OF ORDER (never under FIFO
+    delivery), the real dispatcher bytecode lets exactly three consecutive deliveries go by without
+    running the group's program: one passive pass to the bus and two stale frames handed to user space"""
+    tail = case.get("nonrunning_tail") or []
+    return (case.get("kind") == "history" and case.get("invariant") == "KeepsRunning" and case.get("fifo") is False
+            and case.get("since") == 3 and set(tail) <= {"passive-to-bus", "to-user-space"}
+            and "to-user-space" in tail)
